@@ -161,14 +161,16 @@ macro_rules! cv_harness {
 /// registration of a second waiter behind it land at any atomic step (queue operations,
 /// give-up hand-shake flags) or while it is parked
 fn waiter_vs_notify(notify_all: bool) {
+    waiter_vs_notify_cfg(notify_all, kani::any(), kani::any())
+}
+fn waiter_vs_notify_cfg(notify_all: bool, timed: bool, with_w2: bool) {
     let cv: &'static Condvar = Box::leak(Box::new(Condvar::new()));
     let m: &'static Mutex<u8> = Box::leak(Box::new(Mutex::new(0u8)));
-    let timed: bool = kani::any();
     unsafe {
         CV = cv;
         NOTIFY_LEFT = true;
         NOTIFY_ALL = notify_all;
-        W2_LEFT = kani::any();
+        W2_LEFT = with_w2;
     }
     let g = m.lock().unwrap();
     unsafe { np::HOOK = Some(hook) };
@@ -214,3 +216,9 @@ fn waiter_vs_notify(notify_all: bool) {
 static mut W2_QUEUED_AT_NOTIFY: bool = false;
 cv_harness! { #[kani::unwind(3)] fn c11_condvar_waiter_vs_notify_one_d1() { waiter_vs_notify(false) } }
 cv_harness! { #[kani::unwind(3)] fn c11_condvar_waiter_vs_notify_all_d1() { waiter_vs_notify(true) } }
+
+// reduced instances for the quick tier (the fully symbolic one above takes ~40 min)
+cv_harness! { #[kani::unwind(3)] fn c11_condvar_untimed_waiter_vs_notify_one() { waiter_vs_notify_cfg(false, false, false) } }
+cv_harness! { #[kani::unwind(3)] fn c11_condvar_timed_waiter_w2_vs_notify_one() { waiter_vs_notify_cfg(false, true, true) } }
+cv_harness! { #[kani::unwind(3)] fn c11_condvar_timed_waiter_vs_notify_one() { waiter_vs_notify_cfg(false, true, false) } }
+cv_harness! { #[kani::unwind(3)] fn c11_condvar_untimed_waiter_vs_notify_all() { waiter_vs_notify_cfg(true, false, false) } }
